@@ -86,7 +86,7 @@ class TimePattern(i_lib.TimePattern):
             self._minute_set = TimePattern.MINUTES_60.copy()
         else:
             self._minute_set = set()
-            for minute in range(0, 59):
+            for minute in range(0, 60):
                 if TimePattern._number_match(minute, pattern):
                     self._minute_set.add(minute)
 
